@@ -47,9 +47,10 @@ def main():
                   desc='2 players, arbitrary strengths: flag(p) <=> hand(p) == min, hand(p) = evaluation of the own seven cards of p, winner_len = number of flags >= 1'),
           Harness('c03_flags_uf_3', MOD3, 1500, extra=ST, covers=cov2, key='seat-dependence', mem_gb=16,
                   desc='3 players, same characterisation')]
-    if a.tier == 'thorough':
-        h3.append(Harness('c11_flags_player_perm_2', MOD3, 7200, extra=ST, covers=['a two-way tie reached'], key='seat-dependence', mem_gb=40,
-                          desc='2 players, symbolic seat exchange, two Showdown::new runs compared directly'))
+    if a.only and 'c11_flags_player_perm_2' in a.only:
+        # kept for experiments only: did not finish within 30 min (two full Showdown::new runs on a symbolically permuted player list)
+        h3 = [Harness('c11_flags_player_perm_2', MOD3, 7200, extra=ST, covers=['a two-way tie reached'], key='seat-dependence', mem_gb=40,
+                      desc='2 players, symbolic seat exchange, two Showdown::new runs compared directly')]
     try:
         import re, threading
         res = {}
